@@ -1286,7 +1286,7 @@ func runC13(b *runner.Batch) {
 func init() {
 	runner.Register(&runner.Check{
 		ID: "C13", Level: "exploration",
-		Rule: "Scenarios on a real in-process neo-go node (blockchain, network server with mempool and notary request pool, Notary service, RPC server with in-process clients, harness block producer as logical clock): every committee member runs the public deploy.Deploy with the embedded contracts; a scenario fixes committee size (quick: 18 scenarios on sizes 1-4; thorough: 185 on sizes 1..7), per-member start offsets, per-call delays injected at the RPC boundary, optionally an interruption of one member at a PRNG-chosen block followed by a restart, optionally a state-triggered interruption (the run is cancelled when the chain shows a stage boundary: NNS deployed, Notary role designated, NeoFSAlphabet role designated, proxy / netmap / container registered), optionally a crash injected at a member's own client boundary (the registration of its signature domain is let through, everything it sends afterwards fails and it is cancelled; it stays away until the Notary role is designated; or the same right after the transaction carrying its signature; or right after its k-th accepted submission, restarting 0-3 blocks later: four PRNG-chosen crash points per seed in quick, all 95 in thorough), optionally a hold at the client boundary that releases the lower members' signatures together after the highest member's ('staggered'), optionally an early signer that disappears while the members completing a majority arrive after the shared data expired, a restart delay of 0-5 blocks, optionally a second interruption (of the same or another member), optionally a minority of non-leading members absent until the Notary role appears, optionally a 'late majority' (one member short of a majority publishes signatures, the completing member joins 135 blocks after the last early signature appeared in the NNS; the monitor confirms that the shared transaction data was generated again in between). Judged: return values, progress within 1500 blocks, for a lone member also no silence (no submission attempt) longer than 150 blocks while unfinished (with several members the longest silence is recorded, not judged), roles, NNS id and records, executables by checksum, ContractManagement Deploy event counts, submissions the node refuses as invalid, a second run over the finished chain one hour / thirty days of chain time later (must finish; no Deploy/Update/Designation event, NNS storage unchanged), and Go race detector reports with a frame in neofs-contract/deploy (the child binary is built with -race). Pure helpers through verif-tagged exports: fund division exhaustive for 0..2000 x 1..41 plus uint64 boundaries, nonce/validity window for heights 0..10000 and the last 300 below 2^32, shared-transaction-data codec round trips. distinct = scenario (size, label, outcome) and helper class.",
+		Rule: "Scenarios on a real in-process neo-go node (blockchain, network server with mempool and notary request pool, Notary service, RPC server with in-process clients, harness block producer as logical clock): every committee member runs the public deploy.Deploy with the embedded contracts; a scenario fixes committee size (quick: 20 scenarios on sizes 1-4; thorough: 192 on sizes 1..7), per-member start offsets, per-call delays injected at the RPC boundary, optionally an interruption of one member at a PRNG-chosen block followed by a restart, optionally a state-triggered interruption (the run is cancelled when the chain shows a stage boundary: NNS deployed, Notary role designated, NeoFSAlphabet role designated, proxy / netmap / container registered), optionally a crash injected at a member's own client boundary (the registration of its signature domain is let through, everything it sends afterwards fails and it is cancelled; it stays away until the Notary role is designated; or the same right after the transaction carrying its signature; or right after its k-th accepted submission, restarting 0-3 blocks later: four PRNG-chosen crash points per seed in quick, all 95 in thorough), optionally a hold at the client boundary that releases the lower members' signatures together after the highest member's ('staggered'), optionally an early signer that disappears while the members completing a majority arrive after the shared data expired, a restart delay of 0-5 blocks, optionally a second interruption (of the same or another member), optionally a minority of non-leading members absent until the Notary role appears, optionally a 'late majority' (one member short of a majority publishes signatures, the completing member joins 135 blocks after the last early signature appeared in the NNS; the monitor confirms that the shared transaction data was generated again in between), optionally a 'long absence' (in a committee of two one member goes down when the Notary role appears and comes back 750 blocks later; the other one's Notary requests expire unsigned in the meantime and use up its deposit, which has to be refilled). Judged: return values, progress within 1500 blocks, for a lone member also no silence (no submission attempt) longer than 150 blocks while unfinished (with several members the longest silence is recorded, not judged), roles, NNS id and records, executables by checksum, ContractManagement Deploy event counts, submissions the node refuses as invalid, a second run over the finished chain one hour / thirty days of chain time later (must finish; no Deploy/Update/Designation event, NNS storage unchanged), and Go race detector reports with a frame in neofs-contract/deploy (the child binary is built with -race). Pure helpers through verif-tagged exports: fund division exhaustive for 0..2000 x 1..41 plus uint64 boundaries, nonce/validity window for heights 0..10000 and the last 300 below 2^32, shared-transaction-data codec round trips. distinct = scenario (size, label, outcome) and helper class.",
 		Assumptions: []string{"neo-go v0.107.0 node components are the trusted base", "goroutine interleavings are sampled, not enumerated; a replay re-runs the scenario parameters and carries the recorded RPC log of the failing run as witness",
 			"funding transfers (GAS top-ups, notary deposits) of a second run are logged, not judged"},
 		Batches: func(t string) int { return 1 + len(scenarios(t, 1)) },
